@@ -22,8 +22,8 @@ type c15Case struct {
 	Ending  string   `json:"ending"` // peer-logout | local-logout | stop
 	Answer  string   `json:"answer"` // never | before | at | after   (stop), or "answer" (local-logout)
 	HB      int      `json:"hb"`
-	DelayMs int      `json:"answer_delay_ms,omitempty"` // local-logout: delay before the peer's answer
-	Buf     int      `json:"buf,omitempty"`             // outgoing queue size (default 10)
+	DelayMs int      `json:"answer_delay_ms,omitempty"`  // local-logout: delay before the peer's answer
+	Buf     int      `json:"buf,omitempty"`              // outgoing queue size (default 10)
 	LogonMs int      `json:"logon_timeout_ms,omitempty"` // acceptor's LogonTimeout (default 30 s): a time-out for a logon that never comes must not touch a session that did log on
 }
 
